@@ -16,6 +16,7 @@
 #include "log.h"
 #include "thread_info.h"
 #include "tree_instance.h"
+#include "verif_hooks.h"
 
 #include "glog/logging.h"
 
@@ -110,6 +111,7 @@ public:
     }
 
     [[nodiscard]] n_keys_body_type get_n_keys() {
+        YK_VP(YK_LOAD, YK_C_TREE, &n_keys_);
         return n_keys_.load(std::memory_order_acquire);
     }
 
@@ -137,6 +139,7 @@ public:
                     /**
                      * The key_slice must be left direction of the index.
                      */
+                    YK_VP(YK_LOAD, YK_C_TREE, &children.at(i));
                     ret_child = children.at(i);
                     break;
                 }
@@ -145,6 +148,7 @@ public:
                 /**
                  * The key_slice must be right direction of the index.
                  */
+                YK_VP(YK_LOAD, YK_C_TREE, &children.at(n_key));
                 ret_child = children.at(n_key);
                 if (ret_child == nullptr) {
                     // SMOs have found, so retry from a root node
@@ -165,6 +169,9 @@ public:
                 ret_child = nullptr;
                 break;
             }
+#ifdef YAKUSHIMA_VERIF
+            if (v == check_v) { YK_WAIT(YK_W_RETRY, nullptr); }
+#endif
             v = check_v;
         }
         return ret_child;
@@ -210,6 +217,7 @@ public:
                     set_key(i, key_slice, key_length);
                     shift_right_children(i + 1);
                     set_child_at(i + 1, child);
+                    YK_VP(YK_RMW, YK_C_TREE, &n_keys_);
                     n_keys_increment();
                     return;
                 }
@@ -218,6 +226,7 @@ public:
                 set_key(i, key_slice, key_length);
                 shift_right_children(i + 1);
                 set_child_at(i + 1, child);
+                YK_VP(YK_RMW, YK_C_TREE, &n_keys_);
                 n_keys_increment();
                 return;
             }
@@ -225,6 +234,7 @@ public:
         // insert to rightmost points
         set_key(n_key, key_slice, key_length);
         set_child_at(n_key + 1, child);
+        YK_VP(YK_RMW, YK_C_TREE, &n_keys_);
         n_keys_increment();
     }
 
@@ -246,6 +256,7 @@ public:
     }
 
     void set_n_keys(const n_keys_body_type new_n_key) {
+        YK_VP(YK_STORE, YK_C_TREE, &n_keys_);
         n_keys_.store(new_n_key, std::memory_order_release);
     }
 
